@@ -132,6 +132,19 @@ def run_case(case, env):
                 check_python_family(res, D, lang, code, path, cwd, token, stored, case)
             else:
                 check_foreign(res, lang, code, resolve, token, stored, case)
+        # ---- an array whose README.txt was removed is still an array: running the code must not change it either
+        #      (the code comes from the handle that already exists; nothing opens the directory before the snapshot)
+        if mode == 'relative' and case['fill'] == 0 and not res.fails and (path / 'README.txt').exists():
+            (path / 'README.txt').unlink()
+            res.count('mon.no_readme_stage')
+            n0 = len(res.fails)
+            for lang in ('darr', 'numpy', 'numpymemmap'):
+                code = a.readcode(lang)
+                if code is not None:
+                    check_python_family(res, D, lang, code, path, cwd, token, stored, case, empty=not stored.size)
+            for f in res.fails[n0:]:
+                f['mech'] = 'no-readme:' + f['mech']
+                f['msg'] = 'array directory without README.txt: ' + f['msg']
         # ---- the stored array is changed through ANOTHER handle; code from the first (long-lived)
         #      handle must still denote what is stored now
         if mode == 'relative' and not case.get('empty') and not res.fails and case['fill'] == 0:
@@ -158,20 +171,6 @@ def run_case(case, env):
                     f['mech'] = 'stale-handle:' + f['mech']
                     f['msg'] = f'after {how}, readcode() of the first handle: ' + f['msg']
                 sigs.add((nt, bo, shape, lang, 'after-external-change'))
-        # ---- an array whose README.txt was removed is still an array: running the code must not change it either
-        if mode == 'relative' and case['fill'] == 0 and not res.fails and (path / 'README.txt').exists():
-            (path / 'README.txt').unlink()
-            res.count('mon.no_readme_stage')
-            fresh = D.Array(path)
-            n0 = len(res.fails)
-            for lang in ('darr', 'numpy', 'numpymemmap'):
-                code = fresh.readcode(lang)
-                if code is not None:
-                    cur = fresh[:]
-                    check_python_family(res, D, lang, code, path, cwd, token, cur, case, empty=not cur.size)
-            for f in res.fails[n0:]:
-                f['mech'] = 'no-readme:' + f['mech']
-                f['msg'] = 'array directory without README.txt: ' + f['msg']
         res.sig = {repr(s) for s in sigs}
         res.nontrivial = bool(sigs)
         res.evals = max(1, len(sigs))
